@@ -48,18 +48,16 @@ def make_leaf(t, base="g"):
         p = p.copy()
         t._p = p
     flat = p.reshape(-1)
+    leafvars = c.env.setdefault("leafvars", set())
     for i in range(flat.size):
         x = flat[i]
         if isinstance(x, el.XReal):
             raise EngineUnsupported("autograd in extended-real mode")
-        if x.op == "var" and x in c.env.setdefault("leafvars", set()):
+        if x.op == "var" and x in leafvars:
             continue
         v = c.fresh(base)
-        if not (x.op == "var"):
-            c.defs[v] = x
-        else:
-            c.defs[v] = x
-        c.env["leafvars"].add(v)
+        c.defs[v] = x
+        leafvars.add(v)
         flat[i] = v
     t._rg = True
     t._leaf = True
